@@ -60,6 +60,12 @@ CHECKS = {
             "original line in whole-line context; UTF-8 validity of the result.",
             "Reference matcher/scanner trusted; depth-limit runs discarded via the hook counter; F10 (word boundaries judged "
             "against the resumed suffix) is a known finding recognised by a second, suffix-context prediction.", "3/C14"),
+    "C13": ("exploration", "property-based testing of vi searches against a whole-line reference built on the reference ERE matcher",
+            "Generated (buffer, cursor, sequences of / ? n N ^A with counts, ic) run through vi -v; the cursor (observed by a marker "
+            "character) must be where the whole-line reference says: first match beginning after the cursor character, last of the "
+            "successive matches before it, no wrap, count = repetition, failure leaves the cursor.",
+            "Reference matcher trusted; F10 (word boundaries judged against the resumed suffix) is a known finding recognised by a "
+            "second, suffix-context prediction; depth-limit runs discarded.", "3/C13"),
 }
 
 ALL = ["C%02d" % i for i in range(1, 21)]
